@@ -170,6 +170,9 @@ NOT_COVERED = {
     "C12": [COMPOSITION_GAP_ENC, "prefix decodability at a flush point (needs the missing composition)"],
     "C13": ["delivered bytes are a prefix of the true plaintext (needs the engine)", "termination of the engine; M-decompress clauses are assumptions wherever the decoder units do not prove them"],
     "C14": ["progress inside the engine (M-compress progress clause is assumed)"],
+    "C17": ["mz_deflate / mz_deflateInit2 / mz_deflateReset extern wrappers (CBMC crashes on that harness), mz_compress2, mz_uncompress, tinfl_decompress*, tdefl_* and output_buffer_putter are not under contract", "buffers bounded to 8 bytes"],
+    "C18": ["decoder fields other than state are not reset by init(); that they are dead at Start is shown arm by arm only for the registers (Start arm) and code_size_huffman (ReadTableSizes)", "MinReset: known finding D3", "'behaves exactly like a new object' follows from state equality + determinism of safe Rust (trusted)"],
+    "C19": ["equality of behaviour after Clone / serde round trip (derived code, generic Serializer: no contract within reach)", "the record's precondition num_bits < 8 rests on the assumed end-of-stream history invariant"],
     "C16": ["checksum algorithms live in dependencies (adler2, simd-adler32, crc32fast); only bounded lengths are checked; SIMD build not analysed"],
 }
 
@@ -192,6 +195,15 @@ PROPERTY_META = {
     "C13": dict(text="the wrapper's whole decision table over fully symbolic wrapper state, flush, and engine results (M-decompress contract model)", note=""),
     "C14": dict(text="the wrapper's whole decision table over symbolic engine results (M-compress contract model) plus compress() prologue latching", note=""),
     "C16": dict(text="running-checksum plumbing (which bytes are fed, when) proved; the algorithms themselves bounded", note=""),
+    "C15": dict(not_applicable=True, na_reason=(
+        "a cost bound on whole compression runs (worst-case size of Huffman-coded and stored blocks emitted by flush_block / "
+        "compress_lz_codes / start_dynamic_block versus mz_deflateBound's formula): none of these functions is within reach of "
+        "Verus (iterator chains, closures) or Kani (symbolic-index writes into 64-85 KiB buffers exhaust memory), so no contract "
+        "here can express or decide it; only the arithmetic of the formula itself could be proved, which decides nothing of the "
+        "property (DESIGN.md §4 C15)")),
+    "C17": dict(text="C shim inflate path as function contracts over the real extern \"C\" functions with real pointers: exact accounting, declared ranges only, error codes for every misuse listed in the property", note=""),
+    "C18": dict(text="field-by-field equality of a reset compressor / inflate wrapper with a fresh object from a symbolic pre-state; decoder register re-initialisation in the Start arm; one known finding (MinReset keeps the window)", note=""),
+    "C19": dict(text="block-boundary record <-> live decoder registers, stop reported after every non-final block incl. empty stored blocks, resume at ReadBlockHeader; Clone/serde equality is not a contract-level statement", note=""),
     "C20": dict(not_applicable=True, na_reason=(
         "facts about program text and the trait solver (#![forbid(unsafe_code)], no_std builds, auto traits): no "
         "pre/postcondition expresses them and neither Verus nor Kani decides them; the compiler itself would, which is a "
